@@ -151,6 +151,26 @@ class Check(PropertyCheck):
             s = w + ashref.wire(("DATA", 1 if n <= 256 else 0, 0, 0, b"after"))
             for mode in ("one", "bytes", "rand"):
                 cases.append(cut(s, rng, mode))
+        # reset notifications: every CRC-valid RSTACK / ERROR frame is passed up, also the second and third one with the
+        # same code, with or without other frames in between
+        codes = [0x51, 0x0B, 0x00, 0x02, 0xFF] if tier == "quick" else [0x51, 0x52, 0x0B, 0x00, 0x01, 0x02, 0x06, 0x09, 0x80, 0xFF]
+        for c in codes:
+            for k in ("ERROR", "RSTACK"):
+                one = ashref.wire((k, 2, c))
+                other = ashref.wire(("ERROR" if k == "RSTACK" else "RSTACK", 2, c))
+                for s in (one + one, one + one + one, one + ashref.wire(("DATA", 0, 0, 0, b"d")) + one,
+                          one + ashref.wire(("ACK", 0, 0, 1)) + one, one + other + one,
+                          one + ashref.wire((k, 2, c ^ 1)) + one):
+                    for mode in ("one", "bytes", "rand"):
+                        cases.append(cut(s, rng, mode))
+        # a frame whose two CRC bytes are exchanged (the CRC is big-endian) is not a frame
+        for fr in [("ACK", 0, 0, 0), ("NAK", 1, 1, 4), ("RST",), ("RSTACK", 2, 8), ("ERROR", 2, 25), ("DATA", 1, 1, 2, b"\x11\x13"),
+                   ("DATA", 0, 0, 0, b"abc")]:
+            raw = ashref.encode(fr)
+            sw = ashref.stuff(raw[:-2] + raw[-1:] + raw[-2:-1]) + bytes([0x7E])
+            s = sw + ashref.wire(("DATA", 0, 0, 0, b"next"))
+            for mode in ("one", "bytes", "rand"):
+                cases.append(cut(s, rng, mode))
         # reads larger than the receive buffer that contain complete frames
         for nfr in ([12, 30] if tier == "quick" else [12, 20, 30, 60, 100]):
             fr = [ashref.wire(("DATA", k % 8, 0, 0, bytes([k]) + bytes(rng.randrange(256) for _ in range(90)))) for k in range(nfr)]
